@@ -7,6 +7,7 @@ equation `monoConcave_constraint`).  Normal forms in the normalised variables `X
 lemmas: HypnoModel/Lemmas/PolSpacing.lean.  This file: property theorems only.
 -/
 import HypnoModel.Gen.PolSpacing
+import HypnoModel.Gen.Spacings
 import HypnoModel.Lemmas.PolSpacing
 
 namespace HypnoModel.Props.C10
@@ -480,5 +481,42 @@ example : sqrtBothab 1 8 8 1 1 1 1 6 = sqrtBothab 1 4 4 1 1 1 1 3 := by
 
 example : ([0, 1 / 2, 6 / 5] : List ℝ)[0] < ([0, 1 / 2, 6 / 5] : List ℝ)[2] :=
   order_along_surface [0, 1 / 2, 6 / 5] (by simp; norm_num) 0 2 (by norm_num) (by simp)
+
+/-! ## Which option feeds which end (`EquilibriumRegion.getSpacings`, GENERATED tables `Gen.Spacings`)
+
+The requested end gradients of the spacing functions are the values `getSpacings` returns.  The tables are regenerated from the source
+on every run; locals are written with `@` for the end they belong to.  An end's parameters depend only on the *kind of that end*:
+the table used for the upper end is the table used for the lower end, and every returned key carries the local of its own name and
+its own end — so a region `wall.X` gets the target length at its lower and the X-point length at its upper end (the regression
+"`monotonic_d_upper` taken from the lower end's parameters" makes `spacings_returned_own_end` false). -/
+section Spacings
+open Gen.Spacings
+
+/-- the upper end reads the same options as the lower end does for the same kind of end -/
+theorem spacings_upper_is_lower : upperWall = lowerWall ∧ upperX = lowerX := by decide
+
+/-- every key of the returned dict carries the local with its own name and its own end -/
+theorem spacings_returned_own_end : ∀ p ∈ returned, p.1 = p.2.2.1 ∧ p.2.1 = p.2.2.2 := by decide
+
+/-- both kinds of end define the same parameters, in the same order -/
+theorem spacings_same_parameters : lowerWall.map Prod.fst = lowerX.map Prod.fst := by decide
+
+/-- every parameter is returned for both ends -/
+theorem spacings_returned_complete :
+    ∀ s ∈ lowerWall.map Prod.fst,
+      "lower" ∈ (returned.filter (fun p => p.1 == s)).map (fun p => p.2.1) ∧
+      "upper" ∈ (returned.filter (fun p => p.1 == s)).map (fun p => p.2.1) := by decide
+
+/-- the gradient of the `monotonic` family and the coefficients of the `sqrt` family come from the target options at a wall end and from
+the X-point options at an X-point end -/
+theorem spacings_sources :
+    lowerWall.lookup "monotonic_d_@" = some "self.getTargetParameter('nonorthogonal_target_poloidal_spacing_length')" ∧
+    lowerX.lookup "monotonic_d_@" = some "self.nonorthogonal_options.nonorthogonal_xpoint_poloidal_spacing_length" ∧
+    lowerWall.lookup "sqrt_b_@" = some "self.getTargetParameter('target_poloidal_spacing_length')" ∧
+    lowerWall.lookup "sqrt_a_@" = some "None" ∧
+    lowerX.lookup "sqrt_a_@" = some "self.user_options.xpoint_poloidal_spacing_length" ∧
+    lowerX.lookup "sqrt_b_@" = some "0.0" := by decide
+
+end Spacings
 
 end HypnoModel.Props.C10
